@@ -48,6 +48,15 @@ def file_props():
         d = json.loads(line)
         for f in d["anchors"]["files"]:
             m.setdefault(f, []).append(d["id"])
+    # properties that exercise a file without naming it among their anchors
+    extra = {"mokapot/tabular_data.py": ["C03", "C10"], "mokapot/streaming.py": ["C03", "C05"],
+             "mokapot/confidence_writer.py": ["C05", "C09"], "mokapot/qvalues.py": ["C03", "C07", "C11"],
+             "mokapot/utils.py": ["C09"], "mokapot/parsers/pin.py": ["C08"], "mokapot/peps.py": ["C03"],
+             "mokapot/picked_protein.py": ["C05"], "mokapot/model.py": ["C02", "C05"]}
+    for f, ps in extra.items():
+        for p_ in ps:
+            if p_ not in m.setdefault(f, []):
+                m[f].append(p_)
     return m
 
 
